@@ -44,7 +44,7 @@ claims.update({
    'DESIGN.md 3.C18'),
 })
 claims.update({
- 'C08': ('other', 'value-flow completeness of the re-resolved option set, validate-before-store on all inlined paths, exhaustive decision tables (range test, bracket parsers, optional-dependency resolution) evaluated over the path engine',
+ 'C08': ('other', 'value-flow completeness of the re-resolved option set, validate-before-store on all inlined paths, exhaustive decision tables (range test, bracket parsers, optional-dependency resolution) evaluated over the path engine; interprocedural SSA value flow from the package memo maps to reflect stores; kind-established dominance lint across call sites',
    'toOptionsWithContext carries every declared option except the resolved Optional flag; on every path from the two field entry points to a primitive store a range validation against the field\'s own options and an options-membership check succeeded first on the stored value; absent non-optional non-default scalars yield the is-not-set error, null only for optional fields; validateNumberRange == inside-the-interval for all 36 ordering x bracket rows; bracket parsers and the optional=dep / optional=!dep resolution equal their tables (32 rows).',
    'Not decided: no-panic (reflection), exact value fidelity, completeness (valid input accepted) beyond the tables; slice/map elements carry no per-element options.',
    'DESIGN.md 3.C08'),
@@ -195,6 +195,20 @@ extra6 = {
  'C20': ' Source positions decide layout only in Writer.write (R14); the classes of sources NewScanner rejects are frozen (R15); a comment is rejected only against what the grammar expects at that point (R16).',
 }
 for k, v in extra6.items():
+    lvl, tech, text, note, ref = claims[k]
+    claims[k] = (lvl, tech, text + v, note, ref)
+# round-7 additions
+extra7 = {
+ 'C04': ' The client-side TimeoutInterceptor (which also applies per-call WithCallTimeout) is installed whenever the Timeout middleware switch is on, for every value of the default timeout (R1f).',
+ 'C06': ' The flight rules of C07 (SingleFlight: registration, completion order, result identity) run under C06 as well (R14).',
+ 'C08': ' No value kept in (or reachable from) a package-level memo map of core/mapping reaches reflect Set/SetMapIndex/Append: interprocedural value flow with flat/deep shapes (R15; found and fixed F40); the dotted-key walk is no ancestor search (R12; found and fixed F42); reflect.Type.Key is called only on a value whose kind was established as Map, across call sites (R16; found and fixed F43).',
+ 'C11': ' A batch leaves the container only when registered with the wait group or registered before pe.lock is released (R12; known finding F38: a threshold batch in transit is invisible to Wait); a quit that may be decided on a path needs the in-flight reading and the clearing of guarded in one lock hold on that path (R4).',
+ 'C13': ' OnDelete leaves a delete event unapplied only after testing for the informer\'s DeletedFinalStateUnknown tombstone (R13; found and fixed F37); no field of the Subscriber under construction is read before the last option ran (R14).',
+ 'C16': ' The cache re-arms a timer only through an operation that cannot fire at once: SetTimer, or MoveTimer with an expiry compared against a bound (R3; found and fixed F39).',
+ 'C12': ' The cache\'s timer re-arming rule (C16.R3) runs under C12 as R7.',
+ 'C20': ' Layout by position is decided among the statements that are written: the raw statement list is only ranged over (R17; found and fixed F41).',
+}
+for k, v in extra7.items():
     lvl, tech, text, note, ref = claims[k]
     claims[k] = (lvl, tech, text + v, note, ref)
 not_built_reason = 'static rules designed (DESIGN.md section 3) but not built yet in this revision'
